@@ -1086,6 +1086,10 @@ impl Check for C06 {
                 v.push(Case { input: Input::Quads(qs.clone()), sha384, df: 0, pl: 0, container, expect: Some(exp.to_string()) });
             }
         }
+        // large documents (canonical output of 100-300 KiB): writing in blocks must not lose anything
+        for (n, salt, sha384, container) in [(1200usize, 1u64, false, 0u8), (3000, 2, true, 1), (2000, 3, false, 2)] {
+            v.push(Case { input: Input::Quads(crate::gen::bulk_quads(n, salt, true)), sha384, df: 0, pl: 0, container, expect: None });
+        }
         let en = |n: u8, scheme: u8, mask: u64, deco: bool| Input::Enumerated { n, scheme, mask, deco };
         // every digraph on <= 3 blank nodes, one predicate, with self-loops; with and without
         // a ground arc; default limits with both hashes, plus the strictest limits
